@@ -348,6 +348,7 @@ def explore(ctx, res, pid):
             else:
                 res.disagreements.append(x)
     res.traces = len(digs)
+    classify_tie(ctx, res, digs)
     seen = set()
     uniq = []
     for v in res.oracle_violations:
@@ -356,6 +357,51 @@ def explore(ctx, res, pid):
             uniq.append(v)
         seen.add(k)
     res.oracle_violations[:] = uniq
+
+
+def norm_class(c, wire_id):
+    """class sexp with the wire id in place of the scenario's index, don't-care fields normalised"""
+    if not isinstance(c, list):
+        return c
+    c = list(c)
+    if c[0] == b'init':
+        wf, refused, oldv = c[2], c[3], c[4]
+        if wf != b'T':
+            refused, oldv = b'F', b'F'
+        elif refused == b'T':
+            oldv = b'F'
+        return [c[0], wire_id, wf, refused, oldv]
+    if c[0] == b'req':
+        wf, known = c[2], c[3]
+        if known != b'T':
+            wf = b'T'
+        return [c[0], wire_id, wf, known]
+    return c
+
+
+def classify_tie(ctx, res, digs):
+    """the class the scenario generator attached to every request line (what the Shell model is told) must be the
+    class Model/Classify.v computes from the bytes of the line (the abstraction function between the wire-level
+    models and the connection-level model)"""
+    uniq = {}
+    for d in digs:
+        scj = d['scenario']
+        for text, cl in zip(scj['lines'], scj['classes']):
+            uniq.setdefault((scj['kind'], text, cl), None)
+    keys = sorted(uniq)
+    outs = ctx.model([[sym('classify'), sym(k), t.encode('ascii', 'replace')] for k, t, _ in keys])
+    for (k, t, cl), m in zip(keys, outs):
+        res.evaluations += 1
+        res.count('classify:' + (m[0].decode() if isinstance(m, list) else m.decode()))
+        if m == b'unmodelled':
+            res.unmodelled += 1
+            continue
+        wire_id = t.split('|', 1)[0].encode('ascii', 'replace')
+        want = norm_class(sx.loads(cl), wire_id)
+        got = norm_class(m, m[1] if isinstance(m, list) and m[0] in (b'init', b'req') else None)
+        if got != want:
+            res.disagreements.append({'case': {'kind': k, 'line': t}, 'model': sx.dumps(m), 'impl': cl,
+                                      'relation': 'Classify.classify (line bytes -> line class) = class attached by the scenario generator and fed to Model/Shell.v'})
 
 
 def search(ctx, res, pid):
